@@ -346,6 +346,12 @@ func (p c18) Gen(t *rapid.T, env *Env) (*Case, []*Out) {
 		w = GenWorldOpt(t, maxFiles, scenario == "recursive", scenario == "env")
 		args = drawArgs(t, w)
 	}
+	if scenario == "env" && len(w.Opts.SchemaOut) == 0 && rapid.IntRange(0, 15).Draw(t, "devstdout") == 0 {
+		// the output named as the device file of a standard stream (-o /dev/stdout | gofmt): a pipe, not a regular file
+		cp := *w
+		cp.Opts.Output = rapid.SampledFrom([]string{"/dev/stdout", "/dev/fd/1"}).Draw(t, "devname")
+		w = &cp
+	}
 	env.Stats.NoteFeat(w.Feat)
 	// sometimes the output file exists already: a failing run must not touch it
 	var outAbs []string
@@ -1332,6 +1338,20 @@ func (p c18) Eval(c *Case, outs []*Out) []Discrepancy {
 				add("A", "files-touched-on-failure", fmt.Sprintf("exit %d but created=%v modified=%v removed=%v", exit, keys(delta.Created), keys(delta.Modified), delta.Removed))
 			}
 		}
+		// A2: a failure while writing may leave a designated output incomplete, but nothing ELSE: no file is created
+		// or modified that the command line does not name as an output (temporary files, backups, caches)
+		if exit != 0 && mr.WriteSide {
+			want := designatedOutputs(&c.Runs[i].Spec)
+			var stray []string
+			for _, p := range append(keys(delta.Created), keys(delta.Modified)...) {
+				if !want[filepath.Clean(p)] {
+					stray = append(stray, p)
+				}
+			}
+			if len(stray) > 0 {
+				add("A", "stray-files-after-write-failure", fmt.Sprintf("exit %d; files that are not outputs of this command line were created or modified: %v", exit, stray))
+			}
+		}
 		// S0 / relaxed M: compare with the fault-free run of the same content
 		if aligned && mr.Ref >= 0 && mr.Ref < len(outs) && outs[mr.Ref] != nil && outs[mr.Ref].HasRes {
 			ref := outs[mr.Ref]
@@ -1412,6 +1432,47 @@ func withChain(doc Obj, shape string, k int) Obj {
 		doc = withDef(doc, fmt.Sprintf("Ch%d", i), d)
 	}
 	return addProp(doc, "chaintop", ref(k))
+}
+
+// designatedOutputs: the files the command line names as outputs (-o / --output / --schema-output ID=FILE), as
+// cleaned absolute paths.
+func designatedOutputs(sp *simrt.Spec) map[string]bool {
+	out := map[string]bool{}
+	add := func(v string) {
+		if v == "" || v == "-" {
+			return
+		}
+		if !filepath.IsAbs(v) {
+			v = filepath.Join(sp.Cwd, v)
+		}
+		out[filepath.Clean(v)] = true
+	}
+	for i := 0; i < len(sp.Args); i++ {
+		a := sp.Args[i]
+		val := func() string {
+			if j := strings.Index(a, "="); j >= 0 && strings.HasPrefix(a, "--") {
+				return a[j+1:]
+			}
+			if i+1 < len(sp.Args) {
+				i++
+				return sp.Args[i]
+			}
+			return ""
+		}
+		switch {
+		case a == "-o" || a == "--output" || strings.HasPrefix(a, "--output="):
+			add(val())
+		case strings.HasPrefix(a, "-o") && !strings.HasPrefix(a, "--") && len(a) > 2:
+			add(a[2:])
+		case a == "--schema-output" || strings.HasPrefix(a, "--schema-output="):
+			for _, el := range strings.Split(val(), ",") {
+				if j := strings.LastIndex(el, "="); j >= 0 {
+					add(el[j+1:])
+				}
+			}
+		}
+	}
+	return out
 }
 
 // webAllJSON: the world has documents on the simulated web and all of them are parsed as JSON.
